@@ -32,6 +32,26 @@ pub(crate) mod bytes_real {
     pub(crate) fn v_copy(vm: &mut VM, a: &[Value]) -> Result<Value, RuntimeError> { native_copy(vm, a) }
     pub(crate) fn v_size(vm: &mut VM, a: &[Value]) -> Result<Value, RuntimeError> { native_size(vm, a) }
     pub(crate) fn v_free(vm: &mut VM, a: &[Value]) -> Result<Value, RuntimeError> { native_free(vm, a) }
+    // second part (c09_bytes2.rs)
+    pub(crate) fn v_read_u64(vm: &mut VM, a: &[Value]) -> Result<Value, RuntimeError> { native_read_u64(vm, a) }
+    pub(crate) fn v_write_u64(vm: &mut VM, a: &[Value]) -> Result<Value, RuntimeError> { native_write_u64(vm, a) }
+    pub(crate) fn v_read_i64_be(vm: &mut VM, a: &[Value]) -> Result<Value, RuntimeError> { native_read_i64_be(vm, a) }
+    pub(crate) fn v_write_i64_be(vm: &mut VM, a: &[Value]) -> Result<Value, RuntimeError> { native_write_i64_be(vm, a) }
+    pub(crate) fn v_read_i64(vm: &mut VM, a: &[Value]) -> Result<Value, RuntimeError> { native_read_i64(vm, a) }
+    pub(crate) fn v_write_i64(vm: &mut VM, a: &[Value]) -> Result<Value, RuntimeError> { native_write_i64(vm, a) }
+    pub(crate) fn v_read_u64_be(vm: &mut VM, a: &[Value]) -> Result<Value, RuntimeError> { native_read_u64_be(vm, a) }
+    pub(crate) fn v_write_u64_be(vm: &mut VM, a: &[Value]) -> Result<Value, RuntimeError> { native_write_u64_be(vm, a) }
+    pub(crate) fn v_read_f32(vm: &mut VM, a: &[Value]) -> Result<Value, RuntimeError> { native_read_f32(vm, a) }
+    pub(crate) fn v_write_f32(vm: &mut VM, a: &[Value]) -> Result<Value, RuntimeError> { native_write_f32(vm, a) }
+    pub(crate) fn v_read_f32_be(vm: &mut VM, a: &[Value]) -> Result<Value, RuntimeError> { native_read_f32_be(vm, a) }
+    pub(crate) fn v_write_f32_be(vm: &mut VM, a: &[Value]) -> Result<Value, RuntimeError> { native_write_f32_be(vm, a) }
+    pub(crate) fn v_read_f64(vm: &mut VM, a: &[Value]) -> Result<Value, RuntimeError> { native_read_f64(vm, a) }
+    pub(crate) fn v_write_f64(vm: &mut VM, a: &[Value]) -> Result<Value, RuntimeError> { native_write_f64(vm, a) }
+    pub(crate) fn v_read_f64_be(vm: &mut VM, a: &[Value]) -> Result<Value, RuntimeError> { native_read_f64_be(vm, a) }
+    pub(crate) fn v_write_f64_be(vm: &mut VM, a: &[Value]) -> Result<Value, RuntimeError> { native_write_f64_be(vm, a) }
+    pub(crate) fn v_swap(vm: &mut VM, a: &[Value]) -> Result<Value, RuntimeError> { native_swap(vm, a) }
+    pub(crate) fn v_reverse(vm: &mut VM, a: &[Value]) -> Result<Value, RuntimeError> { native_reverse(vm, a) }
+    pub(crate) fn v_equals(vm: &mut VM, a: &[Value]) -> Result<Value, RuntimeError> { native_equals(vm, a) }
 }
 
 use crate::stdlib::{ByteBuffer, Resource};
